@@ -13,6 +13,8 @@ mkdir -p build
   for f in $(grep '\.v$' _CoqProject); do
     test -f "${f%.v}.vo" || { echo "BUILD FAILED: ${f%.v}.vo missing"; exit 1; }
   done
+  # no escape hatches anywhere in the development (Admitted, axioms, Variables outside sections, ...)
+  python3 ../bin/no_escape.py . || { echo "BUILD FAILED: escape hatch in the Coq development"; exit 1; }
   cd Extract
   timeout 600 coqc -Q .. Ark Extract.v >/dev/null
   ocamlfind ocamlopt -O3 -w -a arkmodel.mli arkmodel.ml driver.ml -o ../../build/arkmodel 2>/dev/null \
